@@ -195,8 +195,28 @@ def check_sufficiency(idx, run):
         loc(scls.module, sfunc))
 
 
+
+GUARDED = [
+    ('LoopTrans', 'validate'),
+    ('LoopFuseTrans', 'validate'),
+    ('LoopFuseTrans', '_validate_written_scalar'),
+    ('LoopFuseTrans', '_validate_written_array'),
+    ('LoopSwapTrans', 'validate'),
+    ('ChunkLoopTrans', 'validate'),
+    ('LoopTiling2DTrans', 'validate'),
+    ('HoistTrans', 'validate'),
+    ('HoistTrans', '_validate_dependencies'),
+    ('HoistLoopBoundExprTrans', 'validate'),
+    ('LFRicLoopFuseTrans', 'validate'),
+    ('GOceanLoopFuseTrans', 'validate'),
+    ('FoldConditionalReturnExpressionsTrans', 'validate'),
+    ('ReplaceInductionVariablesTrans', 'validate'),
+]
+
 def check(idx, run):
     run.explanation = __doc__
+    from sa.guards import check_guards
+    check_guards(idx, run, "C05.R3", GUARDED)
     check_table(idx, run, "C05.R1", TABLE)
     # ChunkLoopTrans validates both chunked loops in tiling: two calls
     cls = idx.get_class("LoopTiling2DTrans")
